@@ -612,6 +612,41 @@ func (pc *pCtx) p3SpareCapacity(only string) {
 					level = append(level, f)
 				}
 			}
+			// a clock or a random source read while the operator is built or applied is one reading for every later
+			// subscription (a deadline computed once: ContextWithDeadline(time.Now().Add(timeout)))
+			clockAnywhere := false
+			clockAtLevel := ""
+			var clockAt token.Pos
+			isLevel := map[*ssa.Function]bool{}
+			for _, f := range level {
+				isLevel[f] = true
+			}
+			for _, f := range closureTree(fn) {
+				for _, b := range f.Blocks {
+					for _, ins := range b.Instrs {
+						call, ok := ins.(ssa.CallInstruction)
+						if !ok {
+							continue
+						}
+						cf := call.Common().StaticCallee()
+						if cf == nil || cf.Pkg == nil {
+							continue
+						}
+						pp := cf.Pkg.Pkg.Path()
+						if (pp == "time" && (cf.Name() == "Now" || cf.Name() == "Since" || cf.Name() == "Until")) || strings.HasSuffix(pp, "internal/xtime") || strings.HasSuffix(pp, "internal/xrand") || pp == "math/rand" || pp == "math/rand/v2" {
+							clockAnywhere = true
+							if isLevel[f] && clockAtLevel == "" {
+								clockAtLevel = fmt.Sprintf("%s.%s is read while the operator is built or applied (%s), not per subscription", pp, cf.Name(), pc.pos(ins.Pos()))
+								clockAt = ins.Pos()
+							}
+						}
+					}
+				}
+			}
+			if clockAnywhere {
+				pc.add([]string{"C12", "C16"}, fmt.Sprintf("P3/%s/no-clock-read-with-the-operator", name),
+					"clocks and random sources are read per subscription or per item, never while the operator is built or applied", clockAtLevel == "", clockAtLevel, pc.pos(clockAt))
+			}
 			made := 0
 			spare := ""
 			var at token.Pos
